@@ -24,6 +24,7 @@ func main() {
 	dbreplay.Main(rep, args, "C03", []dbreplay.Stage{
 		{Name: "wal-3pg-4ops-exhaustive", Cfg: "MC_DBFile_wal.cfg", Timeout: 15 * time.Minute, MaxKeep: core.Pick(args, 1500, 12000)},
 		{Name: "wal-beyond-3pg-4ops-exhaustive", Cfg: "MC_DBFile_wal_beyond.cfg", Timeout: 15 * time.Minute, MaxKeep: core.Pick(args, 800, 8000)},
+		{Name: "wal-block-edges-with-checkpoint-3pg-4ops", Cfg: "MC_DBFile_wal_L2b.cfg", Timeout: 10 * time.Minute, MaxKeep: 0, Need: "Ckpt", Layouts: []sim.Layout{sim.L2(512), sim.L3(512)}},
 		{Name: "wal-block-edges-3pg-3ops", Cfg: "MC_DBFile_wal_L2.cfg", Timeout: 10 * time.Minute, MaxKeep: 0, Layouts: []sim.Layout{sim.L2(512), sim.L3(512)}},
 		{Name: "lock-page-layout-4pg", Cfg: "MC_DBFile_lock_wal.cfg", Timeout: 10 * time.Minute, MaxKeep: core.Pick(args, 3, 48), Layouts: []sim.Layout{sim.L4()}, Workers: 3, MinNs: 4},
 		{Name: "deep-simulation-4pg-8ops", Cfg: "MC_DBFile_sim.cfg", Simulate: true, Num: core.Pick(args, 40, 400), Depth: 200, Timeout: 10 * time.Minute, MaxKeep: core.Pick(args, 150, 3000)},
